@@ -88,6 +88,9 @@ fn one(hist: &serde_json::Value, mode: &str, h_timeout: i64, o_timeout: i64) -> 
     let mut shadow: BTreeSet<u32> = BTreeSet::new();
     let mut overdue: BTreeSet<u32> = BTreeSet::new();
     let mut taken_over: BTreeSet<u32> = BTreeSet::new();
+    // what the registrations say about an address: (registered through a gRPC connection, owned by this node); an HTTP-side write to the
+    // address of a gRPC-connected ephemeral instance leaves it gRPC-connected
+    let mut owner_ref: std::collections::BTreeMap<u32, (bool, bool)> = Default::default();
     for (k, op) in hist["ops"].as_array().cloned().unwrap_or_default().iter().enumerate() {
         let name = op["op"].as_str().unwrap_or("");
         let port = op["port"].as_u64().unwrap_or(1) as u32;
@@ -123,6 +126,12 @@ fn one(hist: &serde_json::Value, mode: &str, h_timeout: i64, o_timeout: i64) -> 
                 let old_stored = svc.instances.get(&key).cloned();
                 let tag_bits = tag.as_ref().map(|t| (t.enabled, t.ephemeral, t.weight));
                 let want = ins.clone();
+                match owner_ref.get(&port).cloned() {
+                    Some((true, _)) if existed && want.ephemeral && !want.from_grpc => {}
+                    _ => {
+                        owner_ref.insert(port, (want.from_grpc, want.from_cluster == 0));
+                    }
+                }
                 svc.update_instance(ins, tag, b(op, "from_sync"), &None);
                 let now = match svc.instances.get(&key) {
                     Some(x) => x.clone(),
@@ -191,7 +200,8 @@ fn one(hist: &serde_json::Value, mode: &str, h_timeout: i64, o_timeout: i64) -> 
                 svc.time_check(now_t - h_timeout, now_t - o_timeout);
                 for (kk, v) in before {
                     let age = now_t - v.last_modified_millis;
-                    let supervised = v.ephemeral && !v.from_grpc && (v.from_cluster == 0 || taken_over.contains(&kk.port));
+                    let (ref_grpc, ref_local) = owner_ref.get(&kk.port).cloned().unwrap_or((v.from_grpc, v.from_cluster == 0));
+                    let supervised = v.ephemeral && !ref_grpc && (ref_local || taken_over.contains(&kk.port));
                     let nowv = svc.instances.get(&kk).cloned();
                     if !supervised {
                         match nowv {
@@ -238,6 +248,7 @@ fn one(hist: &serde_json::Value, mode: &str, h_timeout: i64, o_timeout: i64) -> 
                         shadow.remove(&p);
                     }
                 }
+                owner_ref.retain(|p, _| svc.instances.contains_key(&skey(*p)));
             }
             _ => return Err(Fail::Model(format!("op {}: unknown op {}", k, name))),
         }
